@@ -66,3 +66,6 @@ Inductive mask_kind := MAll | MNotNan | MFinite.
 
 (* the three ways argtopn proceeds once NaNs are masked out *)
 Inductive plan := PEmpty | PPart | PFull.
+
+(* how the stochastic rankers form their sort keys from uniform draws U and weights w *)
+Inductive key_rule := KLogUOverW.
